@@ -228,6 +228,21 @@ def run_source(sc):
                 rec.rec('cycle', 'cb', cnt[0])
                 return cnt[0]
             src = Stream.from_periodic(cb, poll_interval=s['poll'], **kw)
+        elif s['type'] == 'custom':
+            # a user's own source: a Source subclass whose run() is a tornado coroutine (the class docstring
+            # invites overriding run); one cycle = produce the next number, hand it on, sleep
+            from streamz.sources import Source
+            cnt2 = [0]
+
+            class Ticker(Source):
+                @gen.coroutine
+                def run(self):
+                    while not self.stopped:
+                        cnt2[0] += 1
+                        rec.rec('cycle', 'cb', cnt2[0])
+                        yield self._emit(cnt2[0])
+                        yield gen.sleep(s['poll'])
+            src = Ticker(**kw)
         elif s['type'] == 'iterable':
             it = (LoggedGen if s.get('gen_like') else LoggedIter)(rec, s['items']) if s.get('one_shot', True) else LoggedList(rec, s['items'])
             src = Stream.from_iterable(it, **kw)
